@@ -96,6 +96,8 @@ class ConsoleNb(object):
         """Writes data string to console.
 
         """
+        if not isinstance(data, (bytes, bytearray)):  # text string, os.write needs bytes
+            data = data.encode('utf-8')
         return(os.write(self.fd, data))
 
 class DeviceNb(object):
